@@ -229,6 +229,29 @@ def main(tier, seed):
             if mod != obs:
                 ctx.diverge('reference rendering / table1 outcome', {'op': 'ref', 'job': job}, mod, obs)
 
+    # ---- part 2a': two inconsistencies at once - a detached endpoint that also lacks a required attribute: still the
+    # table-not-found error (never an exception of the implementation's own making while it words the message)
+    for typ in ('>', '<', '-', '<>'):
+        for inline in (False, True):
+            for missing in ('type', 'name', 'both'):
+                for side in (1, 2):
+                    t_ = Table('tab')
+                    own = Column('c0', 'int')
+                    t_.add_column(own)
+                    det = Column('d0', 'int')
+                    if missing in ('type', 'both'):
+                        det.type = None
+                    if missing in ('name', 'both'):
+                        det.name = None
+                    r_ = Reference(typ, [det] if side == 1 else [own], [own] if side == 1 else [det], inline=inline)
+                    outs = {k: O.run(f) for k, f in (('sql', lambda: r_.sql), ('dbml', lambda: r_.dbml))}
+                    got = {k: ('ok' if v[0] == 'ok' else O.norm_class(v[1])) for k, v in outs.items()}
+                    ctx.case(core.h(['hollow detached', typ, inline, missing, side]), True,
+                             sample={'kind': typ, 'inline': inline, 'detached_column_lacks': missing, 'observed': got} if typ == '>' and side == 1 else None)
+                    for k, g in got.items():
+                        if g != 'lib:TableNotFoundError':
+                            ctx.fail(f'reference with a detached column that also lacks its {missing}: .{k} gives {g} instead of the '
+                                     f'table-not-found error', {'op': 'hollow-detached', 'case': [typ, inline, missing, side]}, got=g)
     # ---- part 2b: the same questions asked again after the model changed (nothing may be remembered from the first answer)
     for typ in ('>', '<', '-', '<>'):
         for n in (1, 2):
